@@ -151,7 +151,10 @@ def run(ctx):
                 "message, header-only, random / zero bytes up to the wire limit, tampered valid frames, empty TLS records, websocket text / "
                 "ping / empty-binary messages) are delivered through real connection objects (net.Pipe, common.TLSConn, "
                 "common.WebSocketConn over loopback) into a live Session via AddConnection/deplex for all 4 methods, and after every item a "
-                "valid frame on the same connection must reach its reader; distinct = (message class, concrete modification)"
+                "valid frame on the same connection must reach its reader; closing=1 / closing=2 frames produced by the real close "
+                "paths get the same tamper series; after each garbage class 2k valid first frames of different streams arrive "
+                "concurrently on k=2..4 connections (accept backlog full / free) and every stream must read its own payload; "
+                "distinct = (message class, concrete modification)"
                 % (len(cases), "every bit of every byte" if not q else "every bit of the 14 header bytes, of the first 32 payload bytes, "
                    "of the last 16 bytes, around the payload/pad border and of 400 random positions (all positions for messages <= 600 bytes)",
                    "" if not q else "; sampled for the Max-size message", "every length 0..20480 x 2 contents" if not q else
